@@ -38,6 +38,12 @@ def cases(tier, rng):
                             for sub in (None, "init_args", "plain", "no_init"):
                                 yield "class", {"dom": "c14class", "spec": {"init": init, "new": new, "slots": slots, "dbc": dbc,
                                                                             "receiver": recv, "abstract": abstract, "sub": sub}}
+    for dbc in (False, True):
+        for redecorate in (False, True):
+            for dj in (False, True):
+                for args in ([], [5]):
+                    yield "class-diamond", {"dom": "c14class", "spec": {"diamond": True, "dbc": dbc, "redecorate": redecorate,
+                                                                       "decorate_joined": dj, "args": args}}
     aw = {"T": 1}
     for _ in range(20000 if thorough else 2500):
         c = genck.random_case(rng, ans_weights=aw, max_posts=2)
@@ -60,6 +66,8 @@ def run_impl(case):
     if case["dom"] == "stack":
         return implc14.run_stack(case)
     if case["dom"] == "c14class":
+        if case["spec"].get("diamond"):
+            return implc14.run_diamond(case["spec"])
         return implc14.run_class(case["spec"])
     return implck.run(case)
 
@@ -175,7 +183,7 @@ def nontrivial_key(case, mos):
     if case["dom"] == "stack":
         return (tuple(case["decos"]), case["async"])
     if case["dom"] == "c14class":
-        return tuple(sorted(case["spec"].items(), key=str))
+        return repr(sorted(case["spec"].items(), key=str))
     return ckprop.shape_key(case)
 
 
